@@ -82,7 +82,7 @@ def confirm_and_store(res, exe, prop, cfg, tape_path, msg, want='fail', sticky_c
     return False
 
 
-def enum_crash_tape(exe, prop, cfg, crashfile, workdir):
+def enum_crash_tape(exe, prop, cfg, crashfile, workdir, seed=1, tier='quick'):
     """enumerator targets store the textual key of the running case in the crash area"""
     import struct
     try:
@@ -96,12 +96,12 @@ def enum_crash_tape(exe, prop, cfg, crashfile, workdir):
         return None, None
     key = raw[88:88 + ln].decode(errors='replace')
     tape = workdir / ('crash_%s.tape' % cfg)
-    tape.write_text('check=%s config=%s\ncase %s\n' % (prop, cfg, key))
+    tape.write_text('check=%s config=%s seed=%s tier=%s\ncase %s\n' % (prop, cfg, seed, tier, key))
     rc, out, err = replay_once(exe, prop, tape)
     if classify_rc(rc) != 'crash':
         return tape, None
     sig = crash_signature(err)
-    tape.write_text('check=%s config=%s  # %s\ncase %s\n' % (prop, cfg, sig, key))
+    tape.write_text('check=%s config=%s seed=%s tier=%s  # %s\ncase %s\n' % (prop, cfg, seed, tier, sig, key))
     return tape, sig
 
 
@@ -194,7 +194,9 @@ def run_jobs(prop, jobs, seed, crash_is_violation, crash_class_codes=None, max_r
                 confirm_and_store(res, rec['exe'], prop, u.name, rec['tape'], rec['msg'])
             elif rec['kind'] == 'crash':
                 if rec['job'].get('enum'):
-                    tape, sig = enum_crash_tape(rec['exe'], prop, u.name, rec['crashfile'], work)
+                    ea = list(rec['job'].get('extra_args', []))
+                    tier = ea[ea.index('--tier') + 1] if '--tier' in ea else 'quick'
+                    tape, sig = enum_crash_tape(rec['exe'], prop, u.name, rec['crashfile'], work, seed=rec['seed'], tier=tier)
                 else:
                     tape, sig = minimise_crash(rec['exe'], prop, u.name, rec['crashfile'], work)
                 attributable = crash_is_violation
